@@ -20,6 +20,7 @@ Two parts.
 Import-free of everything but other Model files: linked into the `selen_model` driver.
 -/
 import SelenModel.Model.IntCore
+import SelenModel.Model.Validate
 
 namespace Selen
 namespace Safety
@@ -507,7 +508,7 @@ One scenario = one small model built through the public API that contains exactl
 invalid input (or its valid neighbour), followed by one solving entry point. -/
 
 inductive Err where
-  | invalidDomain | invalidConstraint | invalidInput | memoryLimit
+  | invalidDomain | invalidConstraint | invalidInput | memoryLimit | conflictingConstraints
 deriving DecidableEq, Repr
 
 def Err.name : Err → String
@@ -515,6 +516,7 @@ def Err.name : Err → String
   | .invalidConstraint => "InvalidConstraint"
   | .invalidInput => "InvalidInput"
   | .memoryLimit => "MemoryLimit"
+  | .conflictingConstraints => "ConflictingConstraints"
 
 /-- what the one-shot entry points (`solve`, `minimize`, `maximize`) answer -/
 inductive Verdict where
@@ -556,6 +558,9 @@ inductive Scenario where
   | tableArity (nv rowlen : Nat)
   /-- `alldiff([x,x])` / `alldiff([x,y])` -/
   | allDiffDup (dup : Bool)
+  /-- one variable per entry — `none`: `float(0,10)`, `some d`: `intset(d)` (`d` non-empty) — and
+  `alldiff` over all of them -/
+  | allDiff (ds : List (Option (List Int)))
 deriving Repr
 
 /-- `Model::estimate_variable_memory`, integer arm (factory_internal.rs) -/
@@ -587,6 +592,15 @@ def memExceeded (limit : Nat) (lo hi : Int) (post first : Bool) : Bool :=
 /-- `x` itself is rejected (it is the first creation, or the one right after the anchor) -/
 def memXRejected (limit : Nat) (lo hi : Int) (first : Bool) : Bool :=
   decide ((if first then 0 else memEstimate 0 1) + memEstimate lo hi > (limit : Int) * 1024 * 1024)
+
+/-- pairwise different values can be chosen from the integer domains (float variables can always
+take fresh values): what the search decides once the validation has accepted the model -/
+def adSat : List (List Int) → List Int → Bool
+  | [], _ => true
+  | d :: ds, used => d.any (fun v => !used.contains v && adSat ds (v :: used))
+
+/-- the integer domains of an all-different scenario -/
+def adInts (ds : List (Option (List Int))) : List (List Int) := ds.filterMap id
 
 /-- the decision table -/
 def outcome : Scenario → Outcome
@@ -629,6 +643,14 @@ def outcome : Scenario → Outcome
   | .tableArity nv rowlen => ⟨none, if nv ≠ rowlen then .noSolution else .sol⟩
   /- validation.rs AllDifferent duplicate check -/
   | .allDiffDup dup => ⟨none, if dup then .err .invalidConstraint else .sol⟩
+  /- validation.rs `validate_alldiff_constraints` (`Determ.adScan`; constraints over at most one
+     variable are skipped; `num_variables` counts the float variables the scan skips) -/
+  | .allDiff ds =>
+    ⟨none,
+      if ds.length ≤ 1 then .sol
+      else match Determ.adScan ds.length ds [] [] with
+        | .ok => if adSat (adInts ds) [] then .sol else .noSolution
+        | _ => .err .conflictingConstraints⟩
 
 /-- the scenario contains one of the documented invalid inputs of the property text -/
 def documentedInvalid : Scenario → Bool
